@@ -60,6 +60,12 @@ package search
 //@   assert at alloc:Branch: filteredAll && (forall a int :: 0 <= a && a < len(filtered) ==> filtered[a].repos != nil && allMatch(filtered[a].repos))
 //@   assert at alloc:Branch: len(c.List) == 1
 //@   assert at alloc:And: filteredAll && len(filtered) > 0
+// ... and the one-branch filter must mean, in every shard, what the one-entry
+// branches-repos filter means: the documents of the branch with exactly that
+// name. index.newMatchTree gives Branch{Pattern: "HEAD"} a special meaning (the
+// first branch of every repository, whatever its name), which the
+// branches-repos filter does not have.
+//@   assert at alloc:Branch: c.List[0].Branch != "HEAD"
 //@   ensures forall j int :: 0 <= j && j < len(shards) && (shards[j].repos == nil || anyMatch(shards[j].repos)) ==> (exists a int :: 0 <= a && a < len(result0) && result0[a] == shards[j])
 
 // query.Simplify builds new query nodes; it does not write the shard list
